@@ -90,11 +90,14 @@ class IA:
     """index-array argument"""
     typ = "ia"
 
-    def __init__(self, name, signed=False, optional=False, lo=0):
+    def __init__(self, name, signed=False, optional=False, lo=0, placeholder=False):
         self.name = name
         self.signed = signed
         self.optional = optional
         self.lo = lo        # smallest value the operation admits for an element (for clipped Min)
+        # reshape's destination: the library reads a clipped element with a negative minimum as "the -1 placeholder"
+        # (like its own "-1:[1]"_ct); so a clipped element is typed by the sign of the baked value and keeps that sign
+        self.placeholder = placeholder
 
 
 class IS:
@@ -235,16 +238,21 @@ def emit_ia(e, a, ac, name, vec, vals, sig):
     elif k == "lit":
         e.add("const auto %s = nmtools_tuple{%s};" % (name, ",".join(lit_expr(v) for v in vals)))
     elif k == "clt":
-        tys = [clipped_type(m, a.lo) for m in sig["mx"]]
+        if a.placeholder:
+            tys = ["nm::clipped_integer_t<int,-1,1>" if v < 0 else clipped_type(m, 0) for v, m in zip(vals, sig["mx"])]
+            vts = ["int" if v < 0 else "nm_size_t" for v in vals]
+        else:
+            tys = [clipped_type(m, a.lo) for m in sig["mx"]]
+            vts = [clipped_vtype(a.lo)] * n
         e.add("if (%s.size() != %d) { out.tok(\"SKIP\"); return; }" % (vec, n))
         e.add("const auto %s = nmtools_tuple<%s>{%s};" % (
-            name, ",".join(tys), ",".join("%s((%s)%s[%d])" % (tys[i], clipped_vtype(a.lo), vec, i) for i in range(n))))
+            name, ",".join(tys), ",".join("%s((%s)%s[%d])" % (tys[i], vts[i], vec, i) for i in range(n))))
     elif k == "cla":
-        ty = clipped_type(max(sig["mx"]), a.lo)
+        ty = clipped_type(max(sig["mx"]), 0 if a.placeholder else a.lo)
         e.add("if (%s.size() != %d) { out.tok(\"SKIP\"); return; }" % (vec, n))
         e.add("nmtools_array<%s,%d> %s_{}; c9::fill_seq(%s_, %s); const auto& %s = %s_;" % (ty, n, name, name, vec, name, name))
     elif k == "clv":
-        ty = clipped_type(max(sig["mx"]), a.lo)
+        ty = clipped_type(max(sig["mx"]), 0 if a.placeholder else a.lo)
         e.add("if (%s.size() > %d) { out.tok(\"SKIP\"); return; }" % (vec, CAP))
         e.add("nmtools_static_vector<%s,%d> %s_{}; %s_.resize(%s.size()); c9::fill_seq(%s_, %s); const auto& %s = %s_;" % (
             ty, CAP, name, name, vec, name, vec, name, name))
@@ -470,7 +478,7 @@ def _o_reshape(v):
     return V(dst)
 
 
-op("shape_reshape", ["nmtools/array/index/reshape.hpp"], [IA("src"), IA("dst", signed=True, lo=-1)],
+op("shape_reshape", ["nmtools/array/index/reshape.hpp"], [IA("src"), IA("dst", signed=True, lo=-1, placeholder=True)],
    "ix::shape_reshape({src},{dst})", [(1, 2, False), (2, 1, False), (2, 2, False), (3, 2, False), (2, 3, True), (3, 3, True)], _g_reshape, _o_reshape)
 
 # --- broadcast_shape(a, b)
@@ -1105,7 +1113,7 @@ def _ov_reshape(v, T="int"):
     return AR(np_arr(v["a"], T).reshape(v["dst"]))
 
 
-vop("reshape", ["nmtools/array/view/reshape.hpp"], [ARR("a"), IA("dst", signed=True, lo=-1)], "view::reshape({a},{dst})",
+vop("reshape", ["nmtools/array/view/reshape.hpp"], [ARR("a"), IA("dst", signed=True, lo=-1, placeholder=True)], "view::reshape({a},{dst})",
     [(1, 2, False), (2, 1, False), (2, 2, True), (2, 3, False), (3, 2, True)], _gv_reshape, _ov_reshape)
 
 
@@ -1251,11 +1259,14 @@ def _ov_slice(v, T="int"):
     e = v["a"]["shape"][0]
     if not (0 <= v["start"] < v["stop"] <= e):
         return INVALID
+    if len(v["a"]["shape"]) < 2:
+        # a trailing Ellipsis that stands for zero axes is not supported by view::slice for ANY array kind (slice semantics: C05)
+        return INVALID
     return AR(np_arr(v["a"], T)[v["start"]:v["stop"], ...])
 
 
 vop("slice", ["nmtools/array/view/slice.hpp"], [ARR("a"), IS("start"), IS("stop")],
-    "view::slice({a},nmtools_tuple{{{start},{stop}}},nm::Ellipsis)", [(1,), (2,), (3,)], _gv_slice, _ov_slice)
+    "view::slice({a},nmtools_tuple{{{start},{stop}}},nm::Ellipsis)", [(2,), (3,)], _gv_slice, _ov_slice)
 
 vop("flatten", ["nmtools/array/view/flatten.hpp"], [ARR("a")], "view::flatten({a})", [(1,), (2,), (3,)],
     lambda rng, d, primary=None: dict(a=A(primary or vshape(rng, d[0]), 1)), lambda v, T="int": AR(np_arr(v["a"], T).flatten()))
@@ -1566,6 +1577,10 @@ class Group:
                     return False
                 if k in ("cla", "clv") and any(x > max(sg["mx"]) or x < a.lo for x in v):
                     return False
+                if a.placeholder and k == "clt" and any((x < 0) != (y < 0) for x, y in zip(v, self.baked[0][a.name])):
+                    return False
+                if a.placeholder and k in ("cla", "clv") and any(x < 0 for x in v):
+                    return False
                 if ac.T and any(not (TRANGE[ac.T][0] <= x <= TRANGE[ac.T][1]) for x in v):
                     return False
             elif a.typ == "is":
@@ -1648,6 +1663,8 @@ class Group:
                     emit_is(e, a, ac, nm_, "v_" + a.name, v, self.sig.get(a.name))
                 else:
                     emit_arr(e, a, ac, nm_, "v_" + a.name, self.sig[a.name]["S"], v["base"], self.sig[a.name]["T"])
+                    # hook events of the construction of THIS operand (library code: ndarray constructor / resize)
+                    e.add("c9::emit_hook_phase(out, \"HKA%d\");" % o.args.index(a))
             if o.result == "index":
                 # static knowledge first: it is known even when the call itself throws
                 e.add("out.tok(\"TR\"); c9::emit_index_traits<c9::rmcv<decltype(%s)>>(out);" % o.call.format(**names))
@@ -1756,6 +1773,8 @@ def cfg_valid_for(o, c, baked):
                 vs = v if isinstance(v, list) else [v]
                 if not all(lit_ok(x) for x in vs):
                     return False
+            if a.typ == "ia" and a.placeholder and ac.kind in ("cla", "clv") and any(x < 0 for x in v):
+                return False
     return True
 
 
